@@ -9,7 +9,7 @@ HEADER = ('Require Import X2P.Base.Prelude X2P.Corr.C07.\n')
 TARGETS = ['theories/Props/C07.vo', 'theories/Corr/C07.vo']
 ALPHA = ["'", '"', '\\', '\n', '#', '{', '}', '%', '(', ')', '?', '*', '~', 'a', 'z', ' ', '+', ',']
 PHRASES = ["zzcanary(1)", "'+zzcanary(1)+'", '"+zzcanary(1)+"', "\\'+zzcanary(1)+\\'", "*\"+zzcanary(1)+\"*", "a*\"+zzcanary (1)+\"", "{titles}", "{0}", "%s", "'''", '"""',
-           "it'*", "a?'b", "*'+zzcanary(1)+'*", "p*'+str(zzcanary(1))+'*", "?\\", "a*\\'", "x*\ny",
+           'it\'s ""x""', '\'""+str (zzcanary(1))+""', 'say ""hi""', '""', 'a""b\'c', "it'*", "a?'b", "*'+zzcanary(1)+'*", "p*'+str(zzcanary(1))+'*", "?\\", "a*\\'", "x*\ny",
            "\\", "\\n", "it's", 'say "hi"', "x\ny", "#", "a?b", "~*", "__import__('os').system('true')", "');zzcanary(1);('", "\\\\'", "ends\\"]
 MARK = []
 
